@@ -18,7 +18,8 @@ func rulesC07(c *Ctx) {
 		"R7.2 every emitted entry is tagged with the holder's own network-instance name",
 		"R7.3 the path prefix each Concrete*Proto hands to the schema→proto conversion equals the schema path of the table whose element type is the function's parameter (writer's and reader's tables agree); the key of the result is the entry's own key",
 		"R7.4 scope: a named instance → that holder only; all → KnownNetworkInstances(); an unknown instance is an error; every message produced is forwarded to the stream",
-		"R7.5 rebuilding from responses covers all five kinds, each appended to its own table of its own network instance")
+		"R7.5 rebuilding from responses covers all five kinds, each appended to its own table of its own network instance",
+		"R7.6 the walk is a snapshot of the instance: every read of the installed tables on the Get path holds the instance's lock (shared with C11) — a Get overlapping a replace otherwise misses an entry that was installed throughout")
 	c.NotDec = append(c.NotDec, "field-for-field payload fidelity through proto → paths → ygot → gNMI → proto: the conversion is reflective third-party code (protomap, ytypes) with no source-level shape in this repository; the known loss of pop-top-label happens inside it", "Get(ALL) = disjoint union on concrete RIBs (follows from R7.1 structurally)")
 	ruleGetRIBBlocks(c)
 	ruleConcreteProtoPaths(c)
@@ -27,6 +28,8 @@ func rulesC07(c *Ctx) {
 	ruleGetForwards(c)
 	ruleOneofSwitches(c, []string{"rib"})
 	ruleFromGetResponses(c)
+	// R7.6 the walk is a snapshot: the tables are read under the instance's lock
+	ruleLockDiscipline(c, lockSel{classes: []string{"RIBHolder.mu"}, pkgs: []string{"server", "rib"}, pairing: true})
 }
 
 // concreteOf: the Concrete*Proto function whose parameter is *aft.Afts_<Struct>
@@ -309,20 +312,55 @@ func ruleDoGetScope(c *Ctx) {
 		return
 	}
 	c.check(bad == "", rule, fi.Name, "named → that instance; all → KnownNetworkInstances(); unknown instance → error, no emission", c.P.pos(fi.Decl.Pos()), fmt.Sprintf("%d paths", len(paths)), bad)
-	// the single name is the request's name
+	// the single name is the request's name: every assignment to the ranged
+	// list is the empty list, the request's name (appended or as a one-element
+	// literal), or KnownNetworkInstances().
 	okName := false
+	var listObj types.Object
 	ast.Inspect(fi.Decl.Body, func(n ast.Node) bool {
-		if as, ok := n.(*ast.AssignStmt); ok && len(as.Rhs) == 1 {
-			if call, ok := ast.Unparen(as.Rhs[0]).(*ast.CallExpr); ok {
-				if id, ok := call.Fun.(*ast.Ident); ok && id.Name == "append" && len(call.Args) == 2 {
-					if _, p := selectorPath(info, call.Args[1]); strings.Join(p, ".") == "Name" {
-						okName = true
-					}
+		if rs, ok := n.(*ast.RangeStmt); ok {
+			for _, call := range callsIn(rs.Body) {
+				if f, ok := calleeObj(info, call).(*types.Func); ok && f.Name() == "NetworkInstanceRIB" {
+					listObj = objOfIdent(info, rs.X)
 				}
 			}
 		}
 		return true
 	})
+	isReqName := func(e ast.Expr) bool {
+		_, p := selectorPath(info, e)
+		return strings.Join(p, ".") == "Name"
+	}
+	strayList := ""
+	ast.Inspect(fi.Decl.Body, func(n ast.Node) bool {
+		as, ok := n.(*ast.AssignStmt)
+		if !ok || len(as.Rhs) != 1 || len(as.Lhs) != 1 || listObj == nil || objOfIdent(info, as.Lhs[0]) != listObj {
+			return true
+		}
+		switch r := ast.Unparen(as.Rhs[0]).(type) {
+		case *ast.CallExpr:
+			if id, ok := r.Fun.(*ast.Ident); ok && id.Name == "append" && len(r.Args) == 2 && objOfIdent(info, r.Args[0]) == listObj && isReqName(r.Args[1]) {
+				okName = true
+				return true
+			}
+			if f, ok := calleeObj(info, r).(*types.Func); ok && f.Name() == "KnownNetworkInstances" {
+				return true
+			}
+		case *ast.CompositeLit:
+			if len(r.Elts) == 0 {
+				return true
+			}
+			if len(r.Elts) == 1 && isReqName(r.Elts[0]) {
+				okName = true
+				return true
+			}
+		}
+		strayList = types.ExprString(as.Rhs[0])
+		return true
+	})
+	if strayList != "" {
+		okName = false
+	}
 	c.check(okName, rule, fi.Name, "the named instance is the request's name", c.P.pos(fi.Decl.Pos()), "append(list, request.Name)", "the instance list of a named Get is not built from the request's name")
 }
 
